@@ -61,7 +61,8 @@ def _tiny_specials(card):
     if card == 1:
         return [[1.0]]
     if card == 2:
-        return [[1e-12, 1 - 1e-12], [1e-5, 1 - 1e-5], [0.999999, 1 - 0.999999], [0.999999999999, 1e-12], [3e-7, 1 - 3e-7]]
+        return [[1e-12, 1 - 1e-12], [1e-5, 1 - 1e-5], [0.999999, 1 - 0.999999], [0.999999999999, 1e-12], [3e-7, 1 - 3e-7],
+                [1.2345678901234567e-12, 1 - 1.2345678901234567e-12], [9.87654321987e-09, 1 - 9.87654321987e-09]]
     if card == 3:
         return [[1e-12, 1e-5, 1 - 1e-12 - 1e-5], [0.999999, 1e-12, 1 - 0.999999 - 1e-12], [1e-5, 0.0, 1 - 1e-5], [1 / 3, 1e-12, 2 / 3 - 1e-12]]
     return [[1e-12] * (card - 1) + [1 - (card - 1) * 1e-12], [1e-5] + [0.0] * (card - 2) + [1 - 1e-5]]
@@ -301,7 +302,9 @@ def compare_bn(spec, got, fmt, tol, multi_parent_strict=True):
             pos = {vm[x]: i for x, i in zip([v] + ps, idx)}
             g = float(c.values[tuple(pos[x] for x in c.variables)])
             w = float(table[idx[0]][O.col_index(spec, ps, a)])
-            if not abs(g - w) <= tol:
+            # very small entries additionally by relative error (the absolute tolerance says nothing about a value of 1e-12);
+            # NET files carry 4 decimals by format, there only the absolute tolerance applies
+            if not abs(g - w) <= tol or (fmt != "net" and 0 < w < 1e-6 and abs(g - w) > 1e-9 * w):
                 bad = (a, g, w)
                 break
         if bad:
